@@ -126,3 +126,5 @@ pub fn run(o: &Opts) {
     }
     sink.finish(&o.stats, "random histories of recv(slice of src)/read(cap)/next on a real RecvBuf; non-trivial = at least one fully-overlapping fragment arrived and at least one byte was read; distinct by hash of the full transcript of the case");
 }
+
+pub const RUNS: &[(&str, fn(&Opts))] = &[("C08", run)];
